@@ -1,5 +1,6 @@
 import PebblesVerif.Props.C06
 import PebblesVerif.Proofs.Mut4
+import PebblesVerif.Proofs.MutO4
 /-!
 C06, end to end, for an unbounded family of mutation operations: `mutation { m₁ … mₙ }`, n ≥ 1
 distinct leaf root fields of `Mutation` (no arguments, alias = name), field `mᵢ` owned by the
@@ -12,6 +13,12 @@ service, holding ALL the selected fields of that service in document order — n
 field, not one per run of consecutive same-owner fields — in `GetURLs()` order, all at depth 0.
 Consequently (`C06_flat_mutation_not_serial`) the document order of mutation root fields owned by
 different services is not the order in which they reach the services.
+
+Second family (`MutO.Fam`, proofs in `Proofs/MutO1…4.lean`): `mutation { m₁ … mₙ o { f₁ … fₖ } }`,
+n ≥ 0, where the root field `o` of a Node type `T` is owned by `A` and the leaf fields of `T` by `A`
+or `B`: the follow-up lookup for `B`'s fields is issued as a `query`
+(`C06_flat_followup_is_query`), every root field still reaches its owner exactly once, as a
+`mutation`.
 -/
 namespace PebblesVerif
 open PebblesVerif.Exec
@@ -127,5 +134,92 @@ theorem C06_flat_mutation_not_serial : ∃ d calls,
   obtain ⟨d, hg⟩ := C06_flat_mutation_calls_explicit Mut.Example.fam Mut.Example.downEmpty
     Mut.Example.downEmpty_answers
   exact ⟨d, _, hg, Mut.Example.summary_callsOf⟩
+
+/-- **The plan of a mutation with an object-valued root field.** One root step per owning service
+    (in `GetURLs()` order); the step of `A` — the owner of `o` — ends with `o { id <A's fields of T> }`
+    and, if `B` owns a selected field of `T`, has ONE child step at `B`, insertion point `[o]`,
+    `node(id: $id) { ... on T { <B's fields> } }`; the helper `id` is registered for scrubbing. -/
+theorem C06_flat_followup_plan {c : PCtx} {ms : List Mut.MSpec} {A B T o : String} {fs : List Flat.FieldSpec}
+    (h : MutO.Fam c ms A B T o fs) :
+    plan c (MutO.op c ms T o fs) = .ok ((MutO.urlsOf c ms A T o fs).map (fun u =>
+        Step.mk u "Mutation"
+          (Mut.mleaves (ms.filter (fun f => f.2.2 == u)) ++ (if A == u then [Flat.Qown T o fs] else []))
+          []
+          (if A == u then Flat.stepsB B T o (Flat.fsB fs) else [])),
+      [([o], [(T, ["id"])])]) :=
+  MutO.stage_plan h
+
+/-- **Follow-up lookups for fields owned by other services are issued as queries, not as
+    mutations — end to end.** For every operation `mutation { m₁ … mₙ o { f₁ … fₖ } }` of the
+    family (`MutO.Fam`: n ≥ 0 leaf root fields with their owners; `o : T` owned by `A`, `T` a Node
+    type, each `fⱼ` a leaf owned by `A` or `B`, at least one by `B`: `hB`) and every downstream
+    whose answers to the expected calls are well-formed (`MutO.Good`: every owning service answers
+    its single root request with one object; `A`'s answer ends with an object under `o` carrying
+    the string id `i`; nobody else answers with a key `o`; `B` answers the lookup with one object
+    `{node: null | {…}}`), `Model.gateway` returns data, no errors, and the calls `roots ++ [⟨B, [rq]⟩]`
+    where
+    * `rq` — the only follow-up — is sent to `B` as a **`query`**: `node(id: $id) { ... on T { <B's
+      fields> } }` with `$id = i`;
+    * every request of `roots` is sent as a `mutation`, one request per call, no service twice,
+      and each of its selections is a root field owned (per the type-URL map) by the URL called;
+    * for every root field (the `mᵢ` and `o`) there is EXACTLY ONE (URL, request) pair among all
+      requests of all calls, follow-up included, whose request mentions it (`Mut.sentWith`, with
+      multiplicity): a `mutation` request at the field's owner.
+    (`'#'`, `':'` do not occur in `o`, `'#'` not in the id: the insertion-point codec, cf.
+    `C01_point_hash_breaks`.) -/
+theorem C06_flat_followup_is_query {c : PCtx} {ms : List Mut.MSpec} {A B T o : String} {fs : List Flat.FieldSpec}
+    (h : MutO.Fam c ms A B T o fs) (hB : Flat.fsB fs ≠ []) (down : Downstream) (i : String)
+    (ho1 : '#' ∉ o.toList) (ho2 : ':' ∉ o.toList) (hone : o ≠ "") (hi : '#' ∉ i.toList) (hine : i ≠ "")
+    (hg : MutO.Good c ms A B T o fs down i) :
+    ∃ d roots rq, gateway c {} (MutO.op c ms T o fs) none down = .ok ⟨some d, [], roots ++ [⟨B, [rq]⟩]⟩ ∧
+      rq.header.kind = .query ∧
+      rq.sels = convertToNodeQuery T (Flat.leaves (Flat.fsB fs)) ∧ rq.vars = [("id", .str i)] ∧
+      (∀ cl ∈ roots, ∀ r ∈ cl.batch,
+          r.header.kind = .mutation ∧ ∀ s ∈ r.sels, c.tum.get? "Mutation" (fieldName s) = some cl.url) ∧
+      (∀ cl ∈ roots, cl.batch.length = 1) ∧ (roots.map (·.url)).Nodup ∧
+      (∀ f ∈ MutO.roots ms A T o, ∃ r, Mut.sentWith (roots ++ [⟨B, [rq]⟩]) f.1 = [(f.2.2, r)] ∧
+          r.header.kind = .mutation) := by
+  obtain ⟨d, hgw⟩ := MutO.stage_gateway h down i ho1 ho2 hone hi hine hg
+  have hfu : MutO.followUps c B T o fs i = [⟨B, [MutO.lookupReq c B T o fs i]⟩] := by
+    simp [MutO.followUps, hB]
+  refine ⟨d, MutO.rootCalls c ms A B T o fs, MutO.lookupReq c B T o fs i, ?_, MutO.lookupReq_kind c B T o fs i,
+    rfl, rfl, MutO.rootCalls_own h, (MutO.rootCalls_shape c ms A B T o fs).1, (MutO.rootCalls_shape c ms A B T o fs).2, ?_⟩
+  · rw [hgw, hfu]
+  · intro f hf
+    refine ⟨MutO.rootReq c ms A B T o fs f.2.2, ?_, MutO.rootReq_kind h _⟩
+    rw [← hfu]
+    exact MutO.sentWith_calls h i f hf
+
+/-- when `B` owns none of the selected fields of `T` there is no follow-up at all: the calls are
+    the root calls, all `mutation`s -/
+theorem C06_flat_followup_none {c : PCtx} {ms : List Mut.MSpec} {A B T o : String} {fs : List Flat.FieldSpec}
+    (h : MutO.Fam c ms A B T o fs) (hB : Flat.fsB fs = []) (down : Downstream) (i : String)
+    (ho1 : '#' ∉ o.toList) (ho2 : ':' ∉ o.toList) (hone : o ≠ "") (hi : '#' ∉ i.toList) (hine : i ≠ "")
+    (hg : MutO.Good c ms A B T o fs down i) :
+    ∃ d roots, gateway c {} (MutO.op c ms T o fs) none down = .ok ⟨some d, [], roots⟩ ∧
+      (∀ cl ∈ roots, ∀ r ∈ cl.batch,
+          r.header.kind = .mutation ∧ ∀ s ∈ r.sels, c.tum.get? "Mutation" (fieldName s) = some cl.url) ∧
+      (∀ f ∈ MutO.roots ms A T o, ∃ r, Mut.sentWith roots f.1 = [(f.2.2, r)] ∧ r.header.kind = .mutation) := by
+  obtain ⟨d, hgw⟩ := MutO.stage_gateway h down i ho1 ho2 hone hi hine hg
+  have hfu : MutO.followUps c B T o fs i = [] := by simp [MutO.followUps, hB]
+  refine ⟨d, MutO.rootCalls c ms A B T o fs, ?_, MutO.rootCalls_own h, ?_⟩
+  · rw [hgw, hfu, List.append_nil]
+  · intro f hf
+    refine ⟨MutO.rootReq c ms A B T o fs f.2.2, ?_, MutO.rootReq_kind h _⟩
+    have := MutO.sentWith_calls h i f hf
+    rw [hfu, List.append_nil] at this
+    exact this
+
+/-- non-vacuity: `mutation { m1 m2 createAnimal { age name sound } }` (`m1`, `createAnimal`, `name`,
+    `sound` owned by `A`; `m2`, `age` by `B`) against a downstream with well-formed answers meets
+    every hypothesis of `C06_flat_followup_is_query`; the calls are: `B` `mutation { m2 }`, `A`
+    `mutation { m1 createAnimal {…} }`, then `B` `query { node(id: $id) {…} }` -/
+theorem C06_flat_followup_is_query_instance : ∃ d calls,
+    gateway MutO.Example.ctx {} MutO.Example.opEx none MutO.Example.down = .ok ⟨some d, [], calls⟩ ∧
+    MutO.Example.summary calls
+      = [("B", [(.mutation, ["m2"])]), ("A", [(.mutation, ["m1", "createAnimal"])]), ("B", [(.query, ["node"])])] := by
+  obtain ⟨d, hgw⟩ := MutO.stage_gateway MutO.Example.fam MutO.Example.down "a1" (by decide) (by decide) (by decide)
+    (by decide) (by decide) MutO.Example.good
+  exact ⟨d, _, hgw, by decide⟩
 
 end PebblesVerif
